@@ -38,6 +38,7 @@ type Engine struct {
 	MirrorBin     []string
 	Disagreements int
 	MirrorLost    int
+	MirrorChecks  int
 }
 
 func boolInt(b bool) int {
@@ -358,6 +359,7 @@ func (e *Engine) RunAll(hs []*Harness, progress func(*HarnessResult)) []*Harness
 			defer func() {
 				mu.Lock()
 				e.Disagreements += z.Disagree
+				e.MirrorChecks += z.MirrorChecks
 				e.MirrorLost += boolInt(len(e.MirrorBin) > 0 && z.Mirror == nil)
 				mu.Unlock()
 				z.Close()
